@@ -214,8 +214,9 @@ def tlc_mc(ctx, module, cfg, workers=8, timeout=1500, coverage_actions=None, **k
         # vacuity: every named action must have been taken at least once
         text = "\n".join(lines)
         for a in coverage_actions:
-            m = re.search(r"<%s line [^>]*>: (\d+):(\d+)" % re.escape(a), text)
-            if not m or int(m.group(2)) == 0:
+            ms = re.findall(r"<%s line [^>]*>: (\d+):(\d+)" % re.escape(a), text)
+            # TLC prints interim coverage on long runs: the last report is the final one
+            if not ms or int(ms[-1][1]) == 0:
                 raise ToolError("design model %s: action %s never taken (vacuous)" % (module, a))
     ctx.states += dist
     ctx.transitions += gen
